@@ -475,3 +475,19 @@ package utils
 //@   props C05
 //@   bounded utils/mergesortedslices_test.go Test_Bounded_MergeSortedSlices k<=3 runs, each non-decreasing of length<=3 over values 0..3, comparators < and > (85750 inputs): result ordered and a permutation of the inputs
 //@ end
+
+// C15 (what is acknowledged was stored): the Splunk HEC body is a series of JSON
+// objects; the handler stores what this function returns and answers Success.
+// The function may report success only when the WHOLE body was consumed, i.e.
+// when decoding stopped because the decoder could not produce another object
+// (end of input) — never because something that is not the start of an object
+// came next.  Ghost hecLastDecodeFailed: the last Decode call returned an error.
+//@ ghostdecl hecLastDecodeFailed int
+//@ func ExtractSeriesOfJsonObjects
+//@   props C15
+//@   ghostinit ghost(0, "hecLastDecodeFailed") == 0
+//@   site callret decoder.Decode #1:
+//@     ghostset ghost(0, "hecLastDecodeFailed") = ite(result != nil, 1, 0)
+//@   site return #2:
+//@     assert [success-only-after-the-decoder-ran-out-of-input] ghost(0, "hecLastDecodeFailed") == 1
+//@ end
